@@ -453,6 +453,25 @@ impl BucketSegmentReader {
         }
     }
 
+    /// Returns the offset right after the last complete transaction: a single event
+    /// carrying the transaction id flag, or events followed by their commit record.
+    ///
+    /// Anything after it belongs to a transaction whose commit record was never written.
+    pub fn committed_end(&mut self) -> Result<u64, ReadError> {
+        let mut end = SEGMENT_HEADER_SIZE as u64;
+        let mut iter = self.iter();
+        while let Some(record) = iter.next_record()? {
+            let next_offset = record.offset() + record.len();
+            match record {
+                Record::Event(event) if get_uuid_flag(&event.transaction_id) => end = next_offset,
+                Record::Event(_) => {}
+                Record::Commit(_) => end = next_offset,
+            }
+        }
+
+        Ok(end)
+    }
+
     /// Creates an iterator over all records starting from offset 0.
     pub fn iter(&mut self) -> BucketSegmentIter<'_> {
         self.iter_from(SEGMENT_HEADER_SIZE as u64)
